@@ -9,6 +9,7 @@ import (
 	"context"
 	"errors"
 	"fmt"
+	"strings"
 	"time"
 
 	flyt "github.com/mark3labs/flyt"
@@ -259,6 +260,10 @@ func genC05(tier string) []Scenario {
 			}
 		}
 	}
+	// one flow object re-wired between three runs, the last one cancelled
+	for _, deadline := range []bool{false, true} {
+		out = append(out, rewireCancelScenario(deadline))
+	}
 	// larger budgets for two kinds (a cancellation inside the 1st … 5th failing attempt of 6)
 	for _, kind := range []int{kBaseFb, kFuncRB} {
 		for _, n := range []int{5, 6} {
@@ -286,4 +291,121 @@ func cancelNodeScenario(kind, n int, deadline, before bool) Scenario {
 	sc := cancelScenario(fmt.Sprintf("node-cancel kind=%s N=%d deadline=%v before=%v", kindNames[kind], n, deadline, before), d, []int{kind}, deadline, before, true)
 	forcedBudget = 0
 	return sc
+}
+
+// rewireCancelScenario: one flow object over three runs with one wiring step before each —
+// Connect(n0|n1|inner, "a", nil|n1|n2|inner) or nothing, where inner is a nested flow — and the
+// THIRD run cancelled before it starts or inside any one callback: whatever the flow kept from the
+// earlier wirings and runs, no further node starts after the cancellation and a run cut short
+// reports the context's error.  13^3 wiring histories × every cancellation point.
+func rewireCancelScenario(deadline bool) Scenario {
+	var h *H
+	var cs *cancelState
+	body := func() {
+		ns := []*spec{{id: "n0", kind: kLog, n: 1}, {id: "n1", kind: kLog, n: 1}, {id: "n2", kind: kLog, n: 1}}
+		m0 := &spec{id: "m0", kind: kLog, n: 1}
+		inner := &spec{id: "inner", flow: &flowSpec{start: m0, edges: map[*spec]map[flyt.Action]*spec{}}}
+		root := &spec{id: "flow", flow: &flowSpec{start: ns[0], edges: map[*spec]map[flyt.Action]*spec{}}}
+		h = newH(root)
+		h.menu = func(hh *H, c call) []answer {
+			if c.ph != pPost {
+				return []answer{{val: nil}}
+			}
+			total := 0
+			for _, v := range hh.visits {
+				total += v
+			}
+			if total >= 4 {
+				return []answer{{action: "zz"}}
+			}
+			return []answer{{action: "a"}}
+		}
+		froms := []*spec{ns[0], ns[1], inner}
+		tos := []*spec{nil, ns[1], ns[2], inner}
+		for _, s := range []*spec{ns[0], ns[1], ns[2], inner} {
+			h.build(s)
+		}
+		f := flyt.NewFlow(h.nodes[ns[0]])
+		h.nodes[root] = f
+		wire := func() {
+			op := core.Choose(13)
+			if op == 12 {
+				return
+			}
+			from, to := froms[op/4], tos[op%4]
+			var toNode flyt.Node
+			if to != nil {
+				toNode = h.nodes[to]
+			}
+			core.Logf("Connect(%s,\"a\",%v)", from.id, to)
+			f.Connect(h.nodes[from], "a", toNode)
+			setEdge(root, from, "a", to)
+		}
+		wire()
+		h.runFlowOnce(f, "run 1")
+		wire()
+		h.runFlowOnce(f, "run 2")
+		wire()
+		// run 3, cancelled
+		h.closeRef()
+		h.answers, h.calls = nil, nil
+		h.visits = map[*spec]int{}
+		h.store = flyt.NewSharedStore()
+		cs = &cancelState{at: -1}
+		if deadline {
+			c, _ := core.WithDeadline(context.Background(), core.Now().Add(24*time.Hour))
+			cs.ctx, cs.err = c, context.DeadlineExceeded
+		} else {
+			c, _ := core.WithCancel(context.Background())
+			cs.ctx, cs.err = c, context.Canceled
+		}
+		h.ctx = cs.ctx
+		if core.Choose(2) == 1 {
+			cs.ctx.CancelInline(cs.err)
+			cs.at = -2
+		}
+		h.preCall = func(hh *H, c call) {
+			if cs.at == -2 {
+				core.Problem("run 3: callback %s invoked although the context was done before the run", c)
+			} else if cs.at >= 0 && (c.node != cs.node || c.visit != cs.visit || c.ph != pPost) {
+				core.Problem("run 3: a further node was started after the context was cancelled (during callback #%d %s#%d): %s", cs.at, cs.node.id, cs.visit, c)
+			}
+		}
+		h.onCall = func(hh *H, c call) {
+			if cs.at == -1 && core.Choose(2) == 1 {
+				cs.at, cs.node, cs.visit = len(hh.calls)-1, c.node, c.visit
+				core.Logf("cancel inside %s", c)
+				cs.ctx.CancelInline(cs.err)
+			}
+		}
+		err := f.Run(h.ctx, h.store)
+		core.Logf("run 3: Flow.Run returned %v", err)
+		h.hist = append(h.hist, fmt.Sprintf("%s cancel@%d", h.traceString(), cs.at))
+		_, out, done := simulate(h.root, h.store, h.answers)
+		matchesCtx := err != nil && errors.Is(err, cs.err)
+		switch {
+		case cs.at == -1:
+			if err != nil || !done || out.err != nil {
+				core.Problem("run 3 (not cancelled): returned %v, reference done=%v err=%v", err, done, out.err)
+			}
+		case cs.at == -2:
+			if !matchesCtx {
+				core.Problem("run 3 on a done context returned %v, want an error matching %v", err, cs.err)
+			}
+		case !done:
+			if !matchesCtx {
+				core.Problem("run 3 was cut short by the cancellation (after %s) but returned %v, want an error matching %v", h.traceString(), err, cs.err)
+			}
+		default:
+			if err != nil && !matchesCtx {
+				core.Problem("run 3 completed its whole path but returned %v", err)
+			}
+		}
+	}
+	return Scenario{Name: fmt.Sprintf("rewire-then-cancel three runs, a nested flow among the targets, deadline=%v", deadline), Body: body, Check: stdCheck(func() string {
+		if h == nil {
+			return "?"
+		}
+		return strings.Join(h.hist, " | ")
+	})}
 }
